@@ -2,6 +2,7 @@ import SciVerif.Lemmas.C17
 import SciVerif.Lemmas.C17b
 import SciVerif.Lemmas.C17w
 import SciVerif.Lemmas.C17x
+import SciVerif.Lemmas.C17q
 import SciVerif.Generated.C17Units
 
 /-!
@@ -418,9 +419,13 @@ name (`a.b float[2] = {src?c.d}[1:] cm`, `a.b = …`, `h.k {src?c.*}`, `{?*}`); 
 invariant on stored nodes; `InFrag` / `FragRun` are the side conditions of the proved fragment. -/
 
 /-- Full statement: every program of definition / modification / injection / import lines runs
-    in the model exactly as in the specification — without side conditions.  (Beyond it: lines
-    nested by indentation, property lines — the model attaches them to the last node, the
-    specification to a path —, wildcard injections.) -/
+    in the model exactly as in the specification — without side conditions.  Proved parts:
+    `C17_refinement_partial` (flat programs), `C17_refinement_nested_partial` (lines nested by
+    indentation, group lines, property lines), `C17_refinement_rejected` (wildcard / missing
+    injections are errors on both sides).  Still missing: declared nodes inside the invariant
+    (`Inv` requires every stored node to hold a value), import lines below an indented group (the
+    nested theorem keeps import lines at the root), `$unit` / option / `@case` hosts by reference as
+    refinement statements, and dropping the side conditions. -/
 def C17_refinement_statement : Prop :=
   ∀ (tbl : UnitTable) (stmts : List SStmt) (items : List Item) (env : Env) (s' : SEnv),
     Inv tbl env → stmts.mapM conc = some items → sRun tbl (absEnv env) stmts = .ok s' →
@@ -445,6 +450,60 @@ theorem C17_refinement_partial (tbl : UnitTable) (stmts : List SStmt) (items : L
     (hc : stmts.mapM conc = some items) (h : sRun tbl (absEnv env) stmts = .ok s') :
     ∃ env', items.foldlM (step tbl) env = .ok env' ∧ absEnv env' = s' ∧ Inv tbl env' :=
   refine_run tbl stmts items env s' hinv hfrag hc h
+
+/-- The hierarchy stack is the chain of nearest earlier lines with smaller indentation: after
+    any sequence of named lines `ls` and one more line `(d, nm)`, `HierarchyList.register` holds
+    that line followed by exactly "the nearest earlier line with a smaller indent, then the
+    nearest before that with a still smaller one, …", and the dotted path it assigns is that chain
+    (outermost first) followed by the line's own name. -/
+theorem C17_paths (ls : List (Nat × Str)) (d : Nat) (nm : Str) :
+    pushAll [] (ls ++ [(d, nm)]) = (d, nm) :: anc d ls.reverse ∧
+    regNameOf (pushAll [] ls) d nm = joinDot (((anc d ls.reverse).reverse.map Prod.snd) ++ [nm]) := by
+  have h := pushAll_stackOf (ls ++ [(d, nm)])
+  simp only [List.reverse_append, List.reverse_cons, List.reverse_nil, List.nil_append,
+    List.singleton_append, stackOf] at h
+  refine ⟨h, ?_⟩
+  simp only [regNameOf, regStackOf, pushAll_stackOf ls, popParents_stackOf, List.reverse_cons, List.map_append,
+    List.map_cons, List.map_nil]
+
+example : anc 4 [(2, ['b']), (5, ['x']), (0, ['a'])] = [(2, ['b']), (0, ['a'])] := by decide
+
+/-- Proved part, nested programs: lines at ANY indentation (group lines, definitions,
+    modifications, injections with relative or dotted names; imports written at the root), and
+    PROPERTY lines (`!constant`, `!condition`, `!format`, `!tags`, `!description`, literal options)
+    placed after the node they are meant for.  Whenever the specification — which addresses nodes
+    by path — accepts the statements, the model's main loop — which computes paths with the
+    hierarchy stack and attaches property lines to the last node — accepts the lines and ends in
+    an environment whose abstraction is the specification's result.  Side conditions (`RunH`,
+    checked along the joint run): `InFrag` for every statement, the registered path of a line is
+    the path its statement addresses (`PathOK`; by `C17_paths` this is the chain of nearest
+    earlier lines with smaller indentation), and for a property line: the last node is the node at
+    its path, no earlier node has that name, its type admits the property (`PropOK`). -/
+theorem C17_refinement_nested_partial (tbl : UnitTable) (lines : List HLine) (items : List Item)
+    (env : Env) (s' : SEnv) (hinv : Inv tbl env) (hrun : RunH tbl env lines)
+    (hc : lines.mapM HLine.item = some items)
+    (h : sRun tbl (absEnv env) (lines.filterMap HLine.stmt?) = .ok s') :
+    ∃ env', items.foldlM (step tbl) env = .ok env' ∧ absEnv env' = s' ∧ Inv tbl env' :=
+  refine_runH tbl lines items env s' hinv hrun hc h
+
+/-- a property line in its documented place: "update the node at the path" (specification) and
+    "update the last node" (code) are the same update -/
+theorem C17_refinement_property_step (tbl : UnitTable) (env : Env) (hinv : Inv tbl env)
+    (path : List Str) (p : PropLine) (s' : SEnv) (hok : PropOK env path p)
+    (h : sStep tbl (absEnv env) (propStmt path p) = .ok s') :
+    ∃ env', step tbl env (.prop p) = .ok env' ∧ absEnv env' = s' ∧ Inv tbl env' :=
+  refine_prop tbl env hinv path p s' hok h
+
+/-- Rejection on both sides: when the specification rejects an injection because its request —
+    exact, `p.*` or `*` — selects no node or several, the model's line (definition or
+    modification carrying that reference) is an error too. -/
+theorem C17_refinement_rejected (tbl : UnitTable) (env : Env) (hinv : Inv tbl env) (source : Option Str)
+    (hws : WFSource source) (q : SQuery) (hq : WFQ q) (sl : List Sl) (n : Node) (hk : n.kw ≠ .imp)
+    (hr : n.ref = some (source.getD [] ++ '?' :: renderQ q))
+    (h : sEval (absEnv env) (.inj source q sl) = .error .rejected) :
+    ∃ e, step tbl env (.node n) = .error e := by
+  obtain ⟨e, he⟩ := request_rejected tbl env hinv source hws q hq sl h
+  exact step_rejected tbl env n _ e hk hr he
 
 /-- the single-step simulation behind it -/
 theorem C17_refinement_step (tbl : UnitTable) (env : Env) (hinv : Inv tbl env) (stmt : SStmt)
